@@ -75,6 +75,11 @@ func scan(b *core.Behaviour, upto int) []*txInfo {
 			for _, t := range item {
 				t.out = s.Str("out")
 			}
+			// members that follow a failed one are in the block (padding) but have no steps
+			for p := 0; p < s.Int("pad"); p++ {
+				txs = append(txs, &txInfo{num: 9000 + p, exec: item[0].exec, block: blk, item: it, out: s.Str("out"),
+					wroteS: map[string]bool{}, wroteL: map[string]bool{}, delL: map[string]bool{}})
+			}
 		case "EndBlock":
 			blk++
 		}
@@ -279,13 +284,37 @@ func (d *drv) Signature(b *core.Behaviour, idx int, field string, expected, obse
 	}
 	txs := scan(b, idx)
 	path, e, o := firstDiff(expected, observed, "")
+	// report the most telling field first
+	if em, ok := expected.(map[string]any); ok {
+		if om, ok := observed.(map[string]any); ok {
+			for _, f := range []string{"rej", "det", "tys", "rd", "sw", "lw", "st", "lo", "fee"} {
+				if !core.Match(em[f], om[f]) {
+					path, e, o = firstDiff(em[f], om[f], "/"+f)
+					break
+				}
+			}
+		}
+	}
 	parts := strings.Split(strings.TrimPrefix(path, "/"), "/")
 	top := parts[0]
 	switch top {
 	case "det":
 		return fmt.Sprintf("%s|det|%v", op, o)
 	case "rej":
-		return fmt.Sprintf("%s|rej|exp=%v|got=%v", op, e, o)
+		// which keys did the last transaction of the block write
+		cls := ""
+		if len(txs) > 0 {
+			t := txs[len(txs)-1]
+			var ks []string
+			for k := range t.wroteS {
+				ks = append(ks, keyClass(k, t.exec))
+			}
+			for k := range t.wroteL {
+				ks = append(ks, "L:"+keyClass(k, t.exec))
+			}
+			cls = "|exec=" + t.exec + "|keys=" + strings.Join(sortStrings(ks), ",")
+		}
+		return fmt.Sprintf("%s|rej|exp=%v|got=%v%s", op, e, o, cls)
 	case "rd":
 		// which transaction of the current block, which of its reads
 		cur := 0
@@ -311,7 +340,7 @@ func (d *drv) Signature(b *core.Behaviour, idx int, field string, expected, obse
 		// a key of the local data deleted by a failed item earlier in the block
 		deletedByFailed := func(k string) bool {
 			for _, t := range blockTxs {
-				if rt != nil && t.num >= rt.num {
+				if t == rt {
 					break
 				}
 				if t.out == "fail" && (t.delL[k] || k == "") && len(t.delL) > 0 {
@@ -353,6 +382,35 @@ func (d *drv) Signature(b *core.Behaviour, idx int, field string, expected, obse
 		}
 		return fmt.Sprintf("%s|rd|%s|exp=%s|got=%s", op, kind, whose(txs, e), got)
 	case "st", "lo", "sw", "lw":
+		// first key (sorted) whose value differs: whose write was expected / seen
+		em, _ := lookup(expected, []string{top}).(map[string]any)
+		om, _ := lookup(observed, []string{top}).(map[string]any)
+		keys := map[string]any{}
+		for k := range em {
+			keys[k] = nil
+		}
+		for k := range om {
+			keys[k] = nil
+		}
+		for _, k := range sortedKeys(keys) {
+			ev, eok := em[k]
+			ov, ook := om[k]
+			if eok && ook && core.Match(ev, ov) {
+				continue
+			}
+			es, os := "not-in-set", "not-in-set"
+			if eok {
+				es = whose(txs, ev)
+			}
+			if ook {
+				os = whose(txs, ov)
+			}
+			kc := "key"
+			if strings.HasPrefix(k, "?") {
+				kc = "key-unknown-to-the-model"
+			}
+			return fmt.Sprintf("%s|%s|%s|exp=%s|got=%s", op, top, kc, es, os)
+		}
 		return fmt.Sprintf("%s|%s|exp=%s|got=%s", op, top, whose(txs, e), whose(txs, o))
 	case "tys":
 		cls := ""
